@@ -943,6 +943,7 @@ func runProbe(r *vh.Run, transport, label string, sp, cp *appctlpb.TrafficPatter
 	e.batch(ps, "")
 
 	if transport == "udp" {
+		e.reflectedServerDatagrams(rng)
 		e.exactSourceProbes(g, caps[0], rng)
 	}
 
